@@ -123,6 +123,10 @@ def metric_ok(got, want):
     if isinstance(want, tuple):
         if isinstance(got, bool) or not isinstance(got, (int, float)):
             return False
+        if math.isnan(got) or math.isnan(want[1]) or math.isinf(got) or math.isinf(want[1]):
+            # an undefined receiver figure (e.g. the mean of penalties that are infinite on every channel minus ...) is
+            # reported as it is: both sides must agree
+            return (math.isnan(got) and math.isnan(want[1])) or got == want[1]
         return abs(got * 100 - round(got * 100)) < 1e-6 and abs(got - want[1]) <= 0.005 + 1e-9
     if isinstance(want, float) and isinstance(got, (int, float)):
         return abs(got - want) < 1e-12
